@@ -410,8 +410,21 @@ def _main(a, mod, name, tier, seed, jobs, scratch, t_start):
     flaky = 0
     for fl in sorted(failures, key=lambda f: f["widx"]):
         rep = {"part": fl["part"], "case": fl["case"]}
-        fails = [replay_once(mod, drv, rep) for _ in range(3)]
-        if not all(fails):
+        # Deterministic checks: the shrunk case must fail 3 times out of 3.  Checks
+        # that quantify over OS schedules (C11) declare REPLAY_ANY = n: the case is
+        # re-run up to n times and must fail again at least once.
+        any_n = getattr(mod, "REPLAY_ANY", 0)
+        if any_n:
+            fails = []
+            for _ in range(any_n):
+                fails.append(replay_once(mod, drv, rep))
+                if fails[-1]:
+                    break
+            confirmed = bool(fails[-1])
+        else:
+            fails = [replay_once(mod, drv, rep) for _ in range(3)]
+            confirmed = all(fails)
+        if not confirmed:
             flaky += 1
             print("[%s] non-reproducible failure discarded (harness issue): %s" % (ID, fl["msg"]), flush=True)
             p = write_replay(ID, fl, tier, seed)
